@@ -262,6 +262,8 @@ def check_property(pid, tier, seed):
         rt_total["distinct"] += rr["distinct"]
         rt_total["fails"] += len(rr["fails"])
         rt_samples += [{"contract": c.key, "case": s} for s in rr["samples"][:1]]
+        if rr["cases"] > 0 and rr["ok"] == 0 and not rr["fails"] and not rr.get("errors"):
+            checker_errors.append(f"run-time harness of {c.key}: all {rr['cases']} generated cases were skipped (a requires clause is false or raises on every case)")
         if rr.get("errors"):
             checker_errors.append(f"run-time harness error in {c.key}: {rr['errors'][0]['detail'][-600:]}")
         if rr["fails"]:
